@@ -31,29 +31,53 @@ type tracker struct {
 	maxIdx   uint64
 	allDone  bool
 	traj     []string
+	viol     string
+	violDesc string
+	// serialBegins: the scenario serialises Begin calls with increasing indices (oracle contract)
+	serialBegins bool
+	inflight     int
+	racedBegin   map[uint64]bool
 }
 
+// begin calls Begin/BeginMany and records the indices as pending when the call counts as a
+// legitimate begin ahead of the mark. In the oracle-like scenarios Begin calls are
+// serialised with strictly increasing indices (exactly the contract of the transaction
+// oracle), so "mark below the index when the call started" suffices. In the free scripts
+// Begins of different threads race with each other; a Begin that loses such a race
+// (another thread stepped during the call) begins an index the mark may already have
+// passed legitimately, so it is only counted when the call ran without interference.
 func (t *tracker) begin(idx ...uint64) {
 	du := t.w.DoneUntil()
+	sw := vsched.SwitchCount()
+	raced := t.inflight > 0 // another thread is in the middle of a Begin/Done call right now
+	t.inflight++
+	defer func() { t.inflight-- }()
 	if len(idx) == 1 {
 		t.w.Begin(idx[0])
 	} else {
 		t.w.BeginMany(idx)
 	}
+	alone := vsched.SwitchCount() == sw
 	for _, i := range idx {
-		if du < i {
+		if du < i && (t.serialBegins || alone) {
 			t.begun[i]++
+			if raced && !t.serialBegins {
+				t.racedBegin[i] = true
+			}
 		}
 		if i > t.maxIdx {
 			t.maxIdx = i
 		}
 	}
+	t.checkNow() // the instant a Begin has returned is a state the property speaks about
 }
 
 func (t *tracker) done(idx ...uint64) {
 	for _, i := range idx {
 		t.doneInv[i]++
 	}
+	t.inflight++
+	defer func() { t.inflight-- }()
 	if len(idx) == 1 {
 		t.w.Done(idx[0])
 	} else {
@@ -77,7 +101,22 @@ func (t *tracker) wait(i uint64) {
 	}
 }
 
+// checkNow evaluates the invariants synchronously (between two API calls of one thread
+// there may be no scheduling point at which the monitor would run).
+func (t *tracker) checkNow() {
+	if t.viol == "" {
+		t.viol, t.violDesc = t.invariants()
+	}
+}
+
 func (t *tracker) monitor() (string, string) {
+	if t.viol != "" {
+		return t.viol, t.violDesc
+	}
+	return t.invariants()
+}
+
+func (t *tracker) invariants() (string, string) {
 	du := t.w.DoneUntil()
 	if du < t.lastDU {
 		return "doneUntil-decreased", fmt.Sprintf("DoneUntil went from %d to %d", t.lastDU, du)
@@ -88,6 +127,11 @@ func (t *tracker) monitor() (string, string) {
 	t.lastDU = du
 	for i, n := range t.begun {
 		if t.doneInv[i] < n && du >= i {
+			if t.racedBegin[i] {
+				// unordered concurrent Begins: this Begin started while another thread was inside
+				// a Begin/Done (possibly between its slot check and its advance)
+				return "doneUntil-passed-pending begin-raced-with-inflight-advance", fmt.Sprintf("DoneUntil=%d but index %d has %d completed Begin and %d Done (the Begin ran while another thread was inside a Begin/Done call)", du, i, n, t.doneInv[i])
+			}
 			return "doneUntil-passed-pending", fmt.Sprintf("DoneUntil=%d but index %d has %d completed Begin and %d Done", du, i, n, t.doneInv[i])
 		}
 	}
@@ -110,6 +154,7 @@ type scenario struct {
 func oracleScenario(nThreads, perThread int, waiter bool) func(t *tracker) []func() {
 	return func(t *tracker) []func() {
 		var mu vsync.Mutex
+		t.serialBegins = true
 		next := t.w.DoneUntil() + 1
 		var bodies []func()
 		for k := 0; k < nThreads; k++ {
@@ -205,7 +250,7 @@ func setupFor(sc scenario) func() *schedmc.Exec {
 			w.SetDoneUntil(sc.init)
 			w.SetLastIndex(sc.init)
 		}
-		t := &tracker{w: w, begun: map[uint64]int{}, doneInv: map[uint64]int{}, lastDU: w.DoneUntil()}
+		t := &tracker{w: w, begun: map[uint64]int{}, doneInv: map[uint64]int{}, racedBegin: map[uint64]bool{}, lastDU: w.DoneUntil()}
 		bodies := sc.build(t)
 		return &schedmc.Exec{
 			Threads: bodies,
